@@ -92,11 +92,26 @@ def nra_check(assertions, timeout_ms=100000):
     for a in assertions:
         walk(a)
     subs = [(t, v) for t, v in apps.values()]
-    # innermost applications first is not needed: arguments here are UF-free
     s = z3.Tactic('qfnra-nlsat').solver()
     s.set('timeout', timeout_ms)
+
+    def sub(a):
+        # repeat until no application is left (nested applications)
+        for _ in range(8):
+            b = z3.substitute(a, *subs) if subs else a
+            if b.eq(a):
+                break
+            a = b
+        return a
     for a in assertions:
-        s.add(z3.substitute(a, *subs) if subs else a)
+        s.add(sub(a))
+    # functional consistency (Ackermann): equal arguments => equal values
+    items = list(apps.values())
+    for i in range(len(items)):
+        for j in range(i + 1, len(items)):
+            (t1, v1), (t2, v2) = items[i], items[j]
+            if t1.decl().eq(t2.decl()):
+                s.add(z3.Implies(z3.And([sub(x) == sub(y) for x, y in zip(t1.children(), t2.children())]), v1 == v2))
     Stats.queries += 1
     t0 = time.time()
     r = str(s.check())
@@ -240,6 +255,9 @@ def explore(fn, max_paths=20000, budget_s=None):
             ctx.aborted = True
         for idx in ctx.pending:
             stack.append(ctx.decisions[:idx] + [False])
+        if res is not None and _check(ctx.solver) != 'sat':
+            res = None           # assumptions added after the last branch made the path infeasible
+            ctx.aborted = True
         n += 1
         Stats.paths += 1
         yield ctx, res
